@@ -174,16 +174,15 @@ where
                                 let r = f(q, rate);
                                 (r.unit(), r.amount())
                             });
-                            match (&got, &got2) {
-                                (Ok((u1, a1)), Ok((u2, a2))) => {
-                                    if u1 != u2 || !amt::same(*a1, *a2) {
-                                        rep.violation("C13/operand-order", mk("q * rate"), format!("{} {:?}", amt::show(*a2), u2), format!("{} {:?}", amt::show(*a1), u1));
-                                    } else {
-                                        rep.inc("operand_orders_agree");
-                                    }
+                            // the other operand order is judged against the same exact value (the statement asks for
+                            // the same value "in either operand order", up to rounding - not for identical bits)
+                            if judge(rep, "C13/value-times-rate", mk("q * rate"), &got2, ut, &spec, bt.vname(it)).is_some() {
+                                rep.inc("operand_orders_agree");
+                            }
+                            if let (Ok((_, a1)), Ok((_, a2))) = (&got, &got2) {
+                                if amt::same(*a1, *a2) {
+                                    rep.inc("operand_orders_bit_identical");
                                 }
-                                (Err(_), Err(_)) => {}
-                                _ => rep.violation("C13/operand-order", mk("q * rate"), format!("{:?}", got2.as_ref().map(|x| amt::show(x.1))), format!("{:?}", got.as_ref().map(|x| amt::show(x.1)))),
                             }
                         }
                         let _ = first;
